@@ -42,6 +42,12 @@ try:
     res["demo_output_tail"] = out[-600:]
     os.remove(demo_dst)
     res["checks"] = {}
+    # evidence files describe runs on the UNCHANGED tree: keep them out of the seeded runs
+    saved = {}
+    for c in checks:
+        ep = "/verif/evidence/%s.json" % c
+        if os.path.exists(ep):
+            saved[ep] = open(ep).read()
     for c in checks:
         t = time.time()
         rc, out = sh("bin/check %s --tier quick" % c, cwd="/verif")
@@ -50,6 +56,10 @@ try:
         res["checks"][c] = {"exit": rc, "violations": len(viol), "first": what[:2], "wall_s": round(time.time() - t, 1)}
         res["ran"].append("bin/check %s --tier quick -> exit %d, %d VIOLATION lines" % (c, rc, len(viol)))
 finally:
+    for ep, txt in (saved if "saved" in dir() else {}).items():
+        open(ep, "w").write(txt)
+    for f in __import__("glob").glob("/verif/replay/C*-*.json"):
+        os.remove(f)
     if os.path.exists(demo_dst):
         os.remove(demo_dst)
     clean()
